@@ -52,8 +52,7 @@ Section Md.
 
   (* MailboxSet.list_mailboxes: ListTree.update('INBOX', *list_folders()) *)
   Definition x_tree (st : mstate) : tree := tupdate (INBOX :: folder_names st).
-  Definition x_subtree (st : mstate) : tree :=
-    tupdate (INBOX :: filter (fun n => mem_name n (x_subs st)) (folder_names st)).
+  Definition x_subtree (st : mstate) : tree := tupdate (INBOX :: x_subs st).
 
   Definition is_dir (st : mstate) (p : path) : bool :=
     match p with [] => true | _ => amem (join p) (x_folders st) end.
